@@ -487,6 +487,8 @@ func c19TaskSpecs(tier string) [][]chunkSpec {
 			}
 		}
 	}
+	// multi-megabyte outputs (one unterminated line on stdout, newline-terminated on stderr) also in the quick tier
+	tasks = append(tasks, []chunkSpec{{false, 1<<20 + 1, false, true, false}}, []chunkSpec{{true, 3 << 20, true, true, false}})
 	// two and three commands per task over a reduced alphabet
 	small := []chunkSpec{{false, 1, false, false, false}, {true, 1, true, false, false}, {false, 4097, false, true, false}, {true, 4096, true, true, false}}
 	for _, a := range small {
@@ -856,7 +858,7 @@ func runC20(tier string, part, parts int) procxResult {
 	killTimeout := 2500 * time.Millisecond
 	const latency = time.Second // "scheduling latency": a process that has been sent SIGKILL may take a moment to disappear
 	shapes := c20Shapes(tier)
-	modes := []string{"cancel-when-all-leaves-run", "cancel-at-once", "forced-shutdown"}
+	modes := []string{"cancel-when-all-leaves-run", "cancel-at-once", "forced-shutdown", "cancel-after-30ms"}
 	caseNo := 0
 	for si, sh := range shapes {
 		for _, mode := range modes {
@@ -883,7 +885,9 @@ func runC20(tier string, part, parts int) procxResult {
 			if err != nil {
 				panic(err)
 			}
-			if mode != "cancel-at-once" {
+			if mode == "cancel-after-30ms" {
+				time.Sleep(30 * time.Millisecond) // the tree is (typically) only partly built
+			} else if mode != "cancel-at-once" {
 				ok := false
 				for i := 0; i < 5000; i++ {
 					if len(procsWithMarker(marker)) >= sh.leaves+0 && countSleeps(marker) >= sh.leaves {
